@@ -1,8 +1,9 @@
 /* C19: end-to-end cross-check of the decomposition (col.* + head.* + comp.*): the whole real src/list.c + src/safe.c
- * (nothing stubbed but libc and lha_filter_next_file) lists two members for one command per harness (-DCMD), quiet 0
- * and 2, and the complete token stream is compared with the reference renderer.  To keep every token position
- * concrete, names, presence of fields, sizes, stamps, `now` and the month are concrete; permission bits, uid, gid, CRC,
- * header level, OS-9 bits and the other fields of the broken-down time are arbitrary.
+ * (nothing stubbed but libc and lha_filter_next_file) lists two members for one command per harness (-DCMD) at quiet
+ * level -DE2E_QUIET (2: rows only - quick tier; 0: headings, separators, rows, footer - thorough tier), and the complete
+ * token stream is compared with the reference renderer.  To keep every token position concrete, names, presence of
+ * fields, sizes, CRCs (their hex digits pass through the real safe_output), stamps, `now`, the month and the OS type are
+ * concrete; permission bits, uid, gid, header level, OS-9 bits and the other fields of the broken-down time are arbitrary.
  *   member 0: "d/" "a\x1b" Unix file, permissions + ids, 12 -> 34 bytes, -lh5-, recent stamp
  *   member 1: "l" -> "t\x80" directory-type entry (-lhd-) with OS-9 permissions (E2E_OS9) or no permissions (OS name),
  *             no ids, stamp older than six months (l, lv, v) */
@@ -11,16 +12,20 @@
 #ifndef CMD
 #define CMD 0
 #endif
+#ifndef E2E_QUIET
+#define E2E_QUIET 2
+#endif
 static char e_path0[] = "d/", e_name0[] = "a\x1b", e_path1[] = "l", e_target1[] = "t\x80";
 static void e2e_method(LHAFileHeader *h, const char *m) { unsigned i; for (i = 0; i < 6; ++i) h->compress_method[i] = m[i]; }
 void harness(void)
 {
-	INPUT(u32, perms); INPUT(u32, uid); INPUT(u32, gid); INPUT(u16, crc0); INPUT(u16, crc1); INPUT(u8, level0); INPUT(u8, level1); INPUT(u32, os9); INPUT(u8, os1sel);
+	INPUT(u32, perms); INPUT(u32, uid); INPUT(u32, gid); INPUT(u8, level0); INPUT(u8, level1); INPUT(u32, os9);
+	const u16 crc0 = 0x9778, crc1 = 0x00ab;
 	INPUT(u32, mday); INPUT(u32, hour); INPUT(u32, min); INPUT(u32, sec); INPUT(i32, year);
 	LHAFilter filter;
 	LHAOptions options;
 	LHAFileHeader *members[2];
-	unsigned q;
+	unsigned q = E2E_QUIET;
 	out_check = 0;
 	ASSUME(uid <= 65535 && gid <= 65535);
 	sym_time_fill(8, mday, hour, min, sec, year, 1335830400ull);
@@ -33,7 +38,7 @@ void harness(void)
 #ifdef E2E_OS9
 	hdrs[1].extra_flags = LHA_FILE_OS9_PERMS; hdrs[1].os9_perms = os9; hdrs[1].os_type = '9';
 #else
-	hdrs[1].extra_flags = 0; hdrs[1].os_type = (os1sel & 1) ? 'M' : 'K';
+	hdrs[1].extra_flags = 0; hdrs[1].os_type = 'K';
 #endif
 	hdrs[1].compressed_length = 0; hdrs[1].length = 0; hdrs[1].crc = crc1; hdrs[1].timestamp = 1335830400u - 15552000u; hdrs[1].header_level = level1;
 	members[0] = &hdrs[0]; members[1] = &hdrs[1];
@@ -41,14 +46,12 @@ void harness(void)
 	filter.reader = NULL; filter.filters = NULL; filter.num_filters = 0;
 	options.overwrite_policy = LHA_OVERWRITE_PROMPT; options.verbose = CMD & 1;
 	options.dry_run = 0; options.extract_path = NULL; options.use_path = 1;
-	for (q = 0; q < 3; q += 2) {
-		options.quiet = (int) q; hdr_count = 2; hdr_served = 0;
-		if (CMD & 2) list_file_verbose(&filter, &options, stdin);
-		else list_file_basic(&filter, &options, stdin);
-		ref_listing(CMD, (int) q, members, 2, 946684800u, 1335830400ll);
-		if (q == 0) CHECK(out_n > 300, "a complete listing was written");
-		if (q == 0 && perms == 0644 && uid == 1000 && level0 == 2) WITNESS("rw-r--r-- 1000 level 2");
-		c19_segment();
-	}
+	options.quiet = (int) q; hdr_count = 2; hdr_served = 0;
+	if (CMD & 2) list_file_verbose(&filter, &options, stdin);
+	else list_file_basic(&filter, &options, stdin);
+	ref_listing(CMD, (int) q, members, 2, 946684800u, 1335830400ll);
+	CHECK(out_n > (q == 0 ? 300u : 60u), "a complete listing was written");
+	if (perms == 0644 && uid == 1000 && level0 == 2) WITNESS("rw-r--r-- 1000 level 2");
+	c19_compare();
 	WITNESS("end");
 }
